@@ -8,7 +8,7 @@ TOKMAPS = [
     {'a': 'a', 'b': 'b', '1': '1', '2': '2', ' ': ' ', 'R': '#RM#', 'I': '@IG@'},
     {'a': 'é', 'b': 'ü', '1': '7', '2': '٣', ' ': '\t', 'R': '«RM»', 'I': '≈IG≈'},
     # (the ignore marker of this variant reads differently as a regular expression: substrings are literal)
-    {'a': 'k', 'b': 'x', '1': '0', '2': '9', ' ': '  ', 'R': '--', 'I': '$IG$ (c)'},
+    {'a': 'k', 'b': 'x', '1': '0', '2': '9', ' ': '  ', 'R': ' --', 'I': '$IG$ (c)'},        # (the remove marker begins with a blank: removal looks at the line as given)
 ]
 PATTERN = r'\d+'
 NOPTS = 256
@@ -135,7 +135,8 @@ def call_entry(ref, entry, la, le, kw, workdir, nl_a=True, nl_e=True, tag='x', a
 def identical_entry(ref, entry, ls, kw, workdir, eol='\n', final=True, tag='i'):
     """The same content on both sides (byte for byte) through one assertion entry point."""
     content = eol.join(ls) + (eol if final and ls else '')
-    rp = os.path.join(workdir, 'iref_%s.txt' % tag)
+    # (a reference named *.pdf is read as ISO-8859-1 by design: only meaningful when both sides are files)
+    rp = os.path.join(workdir, 'iref_%s.%s' % (tag, 'pdf' if (entry != 'string' and sum(map(ord, tag)) % 4 == 0) else 'txt'))
     with open(rp, 'w', encoding='utf-8', newline='') as f:
         f.write(content)
     try:
